@@ -287,6 +287,27 @@ def sub_scalar(case):
                         dev('%s|valid_scalar_refused' % entry, {'d': hx, 'compressed': c, 'exc': _exc(e)})
                         continue
                     good &= _compare(entry, obs, _expect(d, pt, c), dev, {'d': hx, 'compressed': c})
+            # the WIF forms (version byte + secret [+ 01] in Base58Check, encoded by the reference) through Key() and
+            # HDKey(), without and with the network named: the same scalar, point and compression flag
+            wnet = NETS[idx % len(NETS)]
+            for c in (True, False):
+                wif = codec.b58check_encode(nets.wif_ver(wnet) + b + (b'\x01' if c else b''))
+                for entry, mk in (('Key(wif)', lambda: Key(wif)), ('Key(wif,network)', lambda: Key(wif, network=wnet)),
+                                  ('HDKey(wif,network)', lambda: HDKey(wif, network=wnet))):
+                    n += 1
+                    try:
+                        k = mk()
+                        obs = _observe(k)
+                    except Exception as e:
+                        if 'multiple networks' in str(e) and entry == 'Key(wif)':
+                            bump('wif_network_ambiguous_refused')
+                            continue
+                        good = False
+                        dev('%s|valid_key_refused|%s' % (entry, 'compressed' if c else 'uncompressed'),
+                            {'d': hx, 'net': wnet, 'wif': wif, 'exc': _exc(e)})
+                        continue
+                    good &= _compare('%s|%s' % (entry, 'compressed' if c else 'uncompressed'), obs, _expect(d, pt, c), dev,
+                                     {'d': hx, 'compressed': c, 'wif': wif, 'net': wnet})
             for c in (True, False):
                 n += 1
                 wt = ('legacy', 'p2sh-segwit', 'segwit')[idx % 3]
